@@ -265,8 +265,14 @@ def thm_chord(lat1: "real", lon1: "real", lat2: "real", lon2: "real"):
 
 # ------------------------------------------------------------------ bounded: the conversions that are not decided deductively
 # (the fixed-point iteration of cart2geodetic and the position / line-of-sight conversions)
+def nprng_perm(rng, k):
+    p = list(range(k))
+    rng.shuffle(p)
+    return _np.array(p)
+
+
 @bounded(P, "roundtrips-iteration-and-poslos", "every ellipsoid of ellipsoidmodels x random positions (|lat| <= 88, any longitude, heights -10 km .. "
-         "1000 km; scalars and arrays): geodetic -> cartesian -> geodetic and geodetic -> geocentric -> geodetic to 1 cm / 1e-7 deg, direct "
+         "1000 km; scalars and arrays, also arrays mixing latitudes / heights with a point on the equator): geodetic -> cartesian -> geodetic and geodetic -> geocentric -> geodetic to 1 cm / 1e-7 deg, direct "
          "and composed routes agree; geocentricposlos2cart -> cartposlos2geocentric returns position, zenith and azimuth angle (zenith "
          "1..179 deg, azimuth random or exactly 0 / +-180 / +-90, also |lat| near 90, za near 0 / 180 with the optional arguments); 300 (quick) / 3000 (thorough) cases")
 def bounded_roundtrips(rng, tier):
@@ -312,6 +318,20 @@ def bounded_roundtrips(rng, tier):
                 if abs(r4 - r0) > 0.01 or abs(lat4 - float(latc[0])) > 1e-7 or abs(za4 - za) > 1e-6 \
                         or abs(((aa4 - aa + 180) % 360) - 180) > aa_tol:
                     problems.append("poslos round trip: za %r -> %r, aa %r -> %r, r %r -> %r" % (za, za4, aa, aa4, r0, r4))
+                if r % 4 == 0:
+                    # arrays mixing latitudes and heights in ONE call (the iteration must run until every element has converged),
+                    # with a point on / next to the equator, which converges at once
+                    k = rng.randint(2, 6)
+                    lats_g = _np.array([rng.choice([0.0, 1e-9, -1e-7]) if j == 0 else rng.uniform(-88, 88) for j in range(k)])
+                    lons_g = _np.array([rng.uniform(-180, 180) for _ in range(k)])
+                    hs_g = _np.array([rng.choice([-1e4, 0.0, 1e3, 1e6, rng.uniform(-1e4, 1e6)]) for _ in range(k)])
+                    if rng.random() < 0.5:
+                        perm = nprng_perm(rng, k)
+                        lats_g, lons_g, hs_g = lats_g[perm], lons_g[perm], hs_g[perm]
+                    hb, latb, lonb = G.cart2geodetic(*G.geodetic2cart(hs_g, lats_g, lons_g, ell), ell)
+                    if _np.shape(hb) != (k,) or _np.any(_np.abs(hb - hs_g) > 0.01) or _np.any(_np.abs(latb - lats_g) > 1e-7) \
+                            or _np.any(_np.abs(((lonb - lons_g + 180) % 360) - 180) > 1e-7):
+                        problems.append("geodetic -> cartesian -> geodetic on arrays: h %r -> %r, lat %r -> %r" % (hs_g.tolist(), _np.asarray(hb).tolist(), lats_g.tolist(), _np.asarray(latb).tolist()))
                 if r % 5 == 0:
                     # array arguments (all elements away from the singular cases), incl. meridian azimuths next to others
                     k = rng.randint(2, 5)
